@@ -54,6 +54,10 @@ package txnsnapshot
 //@   opaque-callee get
 //@   modifies kvrpcpb.KvPair.Error of current, kvrpcpb.KvPair.Value of current
 //@   ensures result == nil ==> current.Error == nil
+// ... and it carries the value that point read returned - also in a key-only scan, where an empty value means "the key
+// does not exist at this snapshot" and makes Next skip the pair
+//@   at return assert read: result == nil ==> current.Value == val.Value && current.Key == old(current.Key)
+//@   at call(get) assert same: arg_k == current.Key
 
 // Next stops on a pair inside the scan's bounds (below the end key going forward, at or above the lower bound going
 // backward) that carries no pending lock error, or closes the scanner: beyond the bound, at the end of the data, or on
@@ -101,10 +105,11 @@ package txnsnapshot
 // BatchGetWithTier never writes into the caller's key list (the keys missing from the cache are collected in a list of
 // its own).
 //@ func (*KVSnapshot) BatchGetWithTier
-//@   prop C05
+//@   prop C05 C14
 //@   bytes: key
 //@   opaque-callee getSnapCacheWithoutLock checkCommitTSRequired recordBackoffInfo NewBackofferWithVars WithRPCInterceptor SetCtx GetGlobalConfig
 //@   loop 1 invariant kept: forall i int :: 0 <= i && i < len(keys) ==> keys[i] == old(keys[i])
+//@   at call(UpdateSnapshotCache) assert visible: visibleAt(s.store, s.version)
 //@   ensures kept: forall i int :: 0 <= i && i < len(keys) ==> keys[i] == old(keys[i])
 
 // (assumed, not verified: the fan-out over regions and the cache update only read the key list they are given)
@@ -118,3 +123,40 @@ package txnsnapshot
 //@   trusted
 //@   bytes: key
 //@   modifies KVSnapshot.mu
+
+// A batch of a point batch-get keeps its region after a region error only if EVERY key of the batch still lies in the region
+// now holding its first key (the keys are in the caller's order, not sorted); otherwise the caller splits the batch again.
+//@ func (*batchKeys) relocate
+//@   prop C05
+//@   bytes: key
+//@   may-panic
+//@   loop 1 invariant all: 1 <= i && forall j int :: 1 <= j && j < i && j < len(b.keys) ==> inRange(loc.StartKey, loc.EndKey, b.keys[j])
+//@   loop 1 invariant same: loc != nil && b.keys == old(b.keys)
+//@   ensures same: result0 && result1 == nil ==> b.region == loc.Region && forall j int :: 0 <= j && j < len(b.keys) ==> inRange(loc.StartKey, loc.EndKey, b.keys[j])
+
+// ---- C14: reads below the GC safe point are refused before their result is used --------------------------------------------
+// visibleAt(store, ts): the store's verdict that a snapshot at ts is still above the transaction safe point (what
+// CheckVisibility answers; assumed deterministic within one read). What a read fetched from the stores is put into the
+// snapshot cache - from where later reads are answered without any further check - only after that verdict was positive.
+//@ spec func visibleAt(s kvstore, ts uint64) bool
+//@ func (kvstore) CheckVisibility
+//@   trusted
+//@   modifies nothing
+//@   ensures (result == nil) == visibleAt(recv, startTime)
+//@ func (*KVSnapshot) Get
+//@   prop C14 C05
+//@   bytes: key
+//@   may-panic
+//@   opaque-callee getSnapCacheWithoutLock checkCommitTSRequired recordBackoffInfo NewBackofferWithVars WithRPCInterceptor SetCtx get Apply IsInternal
+//@   at call(UpdateSnapshotCache) assert visible: visibleAt(s.store, s.version)
+
+// What the per-region readers hand back is collected into the result map - every pair with a value, and, when the
+// pipelined buffer tier is read, also a pair with an EMPTY value: there it is a flushed deletion, which must shadow the
+// committed value (dropping it would make the deleted key read as its old committed value). (C16, C05)
+//@ func (*KVSnapshot) BatchGetWithTier$1
+//@   prop C16 C05
+//@   bytes: key
+//@   may-panic
+//@   requires m != nil
+//@   ensures collected: v.Value != "" || readTier == BatchGetBufferTier ==> inDom(m, string(k))
+//@   ensures skipped: v.Value == "" && readTier != BatchGetBufferTier ==> inDom(m, string(k)) == old(inDom(m, string(k)))
